@@ -74,7 +74,9 @@ class SectionOutput(Output):
         self, string, flags=None, new_line=False, with_indent=True
     ):  # type: (str, Optional[int], bool, bool) -> None
         if not self.supports_ansi() and not self._formatter.force_ansi():
-            return super(SectionOutput, self).write(string, flags=flags)
+            return super(SectionOutput, self).write(
+                string, flags=flags, new_line=new_line
+            )
 
         if not self._may_write(flags):
             return
